@@ -71,7 +71,7 @@ func (x *runner) dDirect(verb, query string, body []byte) {
 			h[k] = v
 		}
 		u := &url.URL{Path: "/coll/a/b", RawPath: path}
-		tunnelledReq = &http.Request{Method: http.MethodPost, URL: u, Header: h, Body: io.NopCloser(bytes.NewReader(nb)), RequestURI: path}
+		tunnelledReq = &http.Request{Method: http.MethodPost, URL: u, Header: h, Body: shortReads(nb), RequestURI: path}
 		decErr = restli.DecodeTunnelledQuery(tunnelledReq)
 	})
 	if p {
@@ -148,7 +148,7 @@ func (x *runner) runE2E(threshold int, path string, query *string, httpMethod, r
 		if len(data) == 0 {
 			sr.Body = http.NoBody
 		} else {
-			sr.Body = io.NopCloser(bytes.NewReader(data))
+			sr.Body = shortReads(data)
 		}
 		res := x.srv.serve(sr)
 		out.status, out.invoked, out.seen = res.status, res.invoked, res.seen
@@ -293,7 +293,7 @@ func (x *runner) dPending(t int, path string, queries []string, httpMethod, rest
 			if len(data) == 0 {
 				sr.Body = http.NoBody
 			} else {
-				sr.Body = io.NopCloser(bytes.NewReader(data))
+				sr.Body = shortReads(data)
 			}
 			res := x.srv.serve(sr)
 			got.status, got.invoked, got.seen = res.status, res.invoked, res.seen
